@@ -122,7 +122,7 @@ def run_op(o):
                 r = M.dumps(VALUES[o["value"]])
             elif k == "mloads":
                 import xdis.marsh as M
-                r = M.loads(bytes(o["bytes"]))
+                r = M.loads(bytes(o["bytes"]), o["version"]) if o.get("version") else M.loads(bytes(o["bytes"]))
             else:
                 raise ValueError(k)
         except Exception as e:
